@@ -48,6 +48,14 @@ PLAN = {
  "C11f-projection-memo-wrong-key": ["C11", "C02"], "C12f-bcf-magic-five-bytes": ["C12"], "C13f-project-skips-nonpositive": ["C13", "C03"],
  "C14f-normalize-by-reciprocal": ["C14"], "C15f-shape-entries-u16": ["C15"], "C16f-unparsable-tokens-dropped": ["C16"], "C17f-project-group-multiple": ["C17"],
  "C18f-broken-pipe-is-ok": ["C18"], "C19f-indices-nth-absolute": ["C19"],
+ # round 7
+ "C01g-inline-rsplit-eq": ["C01", "C09"], "C02g-ln-binomial-k-ge-n": ["C02", "C03"], "C03g-lexicographic-shape-precheck": ["C03", "C13"],
+ "C04g-skip-singleton-axes": ["C04"], "C05g-fold-output-created-first": ["C05"], "C06g-be-f8-read-as-le": ["C06", "C15"],
+ "C07g-view-output-created-first": ["C07", "C13"], "C08g-no-alt-shortcut": ["C08"], "C09g-break-after-skip-no-projection": ["C09", "C10"],
+ "C10g-bcf-eof-is-done": ["C10", "C18"], "C11g-sticky-multiallelic-flag": ["C11"], "C12g-detect-prefix-1k": ["C12"],
+ "C13g-view-output-opened-first": ["C13"], "C14g-r1-denominator-by-subtraction": ["C14"], "C15g-reject-unaligned-header": ["C15"],
+ "C16g-skip-padding-after-header": ["C16", "C15"], "C17g-shape-slice-last-numeric": ["C17"], "C18g-vcf-eof-is-done": ["C18", "C10"],
+ "C19g-to-array-keeps-view-strides": ["C19"],
 }
 seeds = sys.argv[1:] or sorted(PLAN)
 for seed in seeds:
